@@ -89,3 +89,9 @@ func verifCompoundInjective(a, b []string) bool {
 	_, _ = DecodeStringSlice(ka)
 	return true
 }
+
+// string lists: what is read back is the sorted duplicate-free set of what was written
+func verifRoundTripStringList(b *TypedBucket, name string, value []string) []string {
+	b.SetStringList(name, value, nil)
+	return b.GetStringList(name)
+}
